@@ -121,9 +121,15 @@ func (p *StreamPool) Dump() {
 }
 
 func (p *StreamPool) remove(conn *connection) {
+	p.removeKey(conn.key, conn, conn.epoch)
+}
+
+// removeKey removes conn from the pool if it still is the entry for k and has
+// not been recycled (possibly for the very same key) since epoch was read.
+func (p *StreamPool) removeKey(k key, conn *connection, epoch uint64) {
 	p.mu.Lock()
-	if _, ok := p.conns[conn.key]; ok {
-		delete(p.conns, conn.key)
+	if c, ok := p.conns[k]; ok && c == conn && conn.epoch == epoch {
+		delete(p.conns, k)
 		p.free = append(p.free, conn)
 	}
 	p.mu.Unlock()
@@ -162,7 +168,13 @@ func (p *StreamPool) newConnection(k key, s Stream, ts time.Time) (c *connection
 	}
 	index := len(p.free) - 1
 	c, p.free = p.free[index], p.free[:index]
+	// Another assembler may still hold a pointer to this recycled connection
+	// from its previous life and is about to lock it: reset it under its own
+	// lock. (Whoever holds the lock of a removed connection never waits for
+	// the pool lock, so taking it here cannot deadlock.)
+	c.mu.Lock()
 	c.reset(k, s, ts)
+	c.mu.Unlock()
 	return c, &c.c2s, &c.s2c
 }
 
@@ -197,15 +209,14 @@ func (p *StreamPool) getConnection(k key, end bool, ts time.Time, tcp *layers.TC
 	verifYield("getConnection.created")
 	p.mu.Lock()
 	defer p.mu.Unlock()
-	conn, half, rev = p.newConnection(k, s, ts)
+	// The connection may have been added in the meantime, by a packet of
+	// either direction: use that entry.
 	conn2, half2, rev2 := p.getHalf(k)
 	if conn2 != nil {
-		if conn2.key != k {
-			panic("FIXME: other dir added in the meantime...")
-		}
 		// FIXME: delete s ?
 		return conn2, half2, rev2
 	}
+	conn, half, rev = p.newConnection(k, s, ts)
 	p.conns[k] = conn
 	return conn, half, rev
 }
